@@ -21,6 +21,8 @@ ASSUMPTIONS = ["every well-formed callout carries a FRU identity substructure", 
 def plan(tier, seed):
     per = 700 if tier == "quick" else 25000
     specs = [{"mode": "random", "n": per, "rseed": seed * 1000 + i, "registry": i % 4 != 3} for i in range(14)]
+    # BMC file-system layout: no pel_registry distribution, the message registry under /usr/share/phosphor-logging/pels
+    specs.append({"mode": "random", "n": per, "rseed": seed * 1000 + 700, "registry": False, "bmc": "ok"})
     specs.append({"mode": "sweep", "rseed": seed * 1000 + 800, "reps": 1 if tier == "quick" else 25})
     specs.append({"mode": "sweep", "rseed": seed * 1000 + 801, "reps": 1 if tier == "quick" else 25, "registry": False})
     return specs
@@ -28,7 +30,7 @@ def plan(tier, seed):
 
 def minimums(tier):
     return {"SRC.entries": 10000, "src.callouts": 15000, "src.error_details": 1500, "src.procedure_descs_expected": 300,
-            "field.SRC.Hex Word": 50000, "field.SRC.Callout Section": 8000}
+            "field.SRC.Hex Word": 50000, "field.SRC.Callout Section": 8000, "bmc.error_details": 80, "bmc.path_accesses": 2}
 
 
 KINDS = [("SS", 10), ("PS", 4), ("MT", 3), ("UNK", 3), ("UD", 1)]
@@ -41,6 +43,9 @@ def run(spec, ctx):
     u = pm.Uniq(spec["shard"] * 10_000_000)
     reg = harness.registry_model()
     ctx.see("registry", harness.registry_active())
+    ctx.see("layout", spec.get("bmc") or ("pel_registry" if harness.registry_active() else "none"))
+    if spec.get("bmc"):
+        before = ctx.counters.get("src.error_details", 0)
 
     def one(secs, creator, plugins=True):
         pel = pm.Pel(creator, pm.gen_ph(rng, u, creator), pm.gen_uh(rng, creator), secs)
@@ -52,6 +57,9 @@ def run(spec, ctx):
             pel = gen.gen_pel(rng, u, creator=c, reg=reg, kinds=KINDS, nopt=rng.choice([1, 2, 3, 4]), primary=True,
                               plugins_enabled=plugins)
             fidelity.run_case(pel, ctx, "C03", allow_plugins=plugins, reg=reg)
+        if spec.get("bmc"):
+            ctx.counters["bmc.error_details"] = ctx.counters.get("src.error_details", 0) - before
+            ctx.counters["bmc.path_accesses"] = harness._bmc["opens"]
         return
     sentinel = lambda c: pm.sec_generic(rng, u, rng.choice([b"ID", b"PE", b"MR", b"XX", b"EI"]))
     for _ in range(spec["reps"]):
